@@ -121,6 +121,18 @@ fn svcparams(rng: &mut Rng) -> Vec<u8> {
             4 => rng.bytes(4 * rng.clone().range(1, 3)),
             5 => opaque(rng, 1, 60),
             6 => rng.bytes(16 * rng.clone().range(1, 2)),
+            // dohpath (RFC 9461): a UTF-8 URI template
+            7 => rng.pick(&[&b"/dns-query{?dns}"[..], b"/q{?dns}", b"/dns-query{?dns}&x=%20y"]).to_vec(),
+            // ohttp (RFC 9540): no value
+            8 => vec![],
+            // tls-supported-groups: distinct 16-bit identifiers
+            9 => {
+                let n = rng.range(1, 4);
+                let mut ids: Vec<u16> = (0..n).map(|_| rng.u16()).collect();
+                ids.sort_unstable();
+                ids.dedup();
+                ids.iter().flat_map(|x| x.to_be_bytes()).collect()
+            }
             _ => opaque(rng, 0, 60),
         };
         out.extend_from_slice(&k.to_be_bytes());
